@@ -28,8 +28,27 @@ CHECKS = {}
 def check(pid, **kw):
     CHECKS[pid] = kw
 
-check('C02', progs=[('chk_C02', [1])], level='exploration', floors={'lines': 1000, 'abbreviated_lines': 100, 'ambiguous_lines': 50, 'implicit_write_lines': 50},
-      extra=['engine.c'], scale={'quick': 40, 'thorough': 1})
+ENG = ['engine.c']
+check('C01', progs=[('chk_C01', [1, 2])], level='exploration', extra=ENG,
+      floors={'result_codes': 5000, 'lines_err_ambiguous': 100, 'lines_err_args_too_long': 50, 'lines_blank': 50, 'holds_released_and_answered': 50, 'list_units': 100})
+check('C02', progs=[('chk_C02', [1])], level='exploration', floors={'lines': 1000, 'abbreviated_lines': 100, 'ambiguous_lines': 50, 'implicit_write_lines': 50})
+check('C10', progs=[('chk_C10', [1, 2])], level='exploration',
+      floors={'sequences': 20000, 'command_lists': 500, 'handler_invocations_checked': 50000})
+check('C11', progs=[('chk_C11', [1, 2, 3, 8])], level='exploration', extra=ENG,
+      floors={'histories_with_contention': 500, 'contended_steps_event_holds_line': 1000, 'contended_steps_cmd_holds_line': 1000, 'event_units': 1000, 'cmd_data_units': 500, 'list_units': 200, 'write_refusals': 10000})
+check('C12', progs=[('chk_C12', [1, 2])], level='exploration', extra=ENG,
+      floors={'schedule_variants_run': 20000, 'refused_read_steps_compared': 50000, 'scenarios_with_events': 2000, 'scenarios_without_events': 2000})
+check('C13', progs=[('chk_C13', [1, 2, 3, 8])], level='exploration',
+      floors={'triggers_accepted': 100000, 'triggers_refused': 100000, 'queries_compared': 100000, 'events_failed_at_once': 10000, 'histories_with_wraparound': 1000})
+check('C14', progs=[('chk_C14', [1, 2])], level='exploration', extra=ENG,
+      floors={'holds_with_input_queued': 200, 'holds_released_and_answered': 500, 'releases_by_api': 100, 'releases_by_event_handler': 50, 'events_triggered_during_hold': 100, 'spurious_hold_exits': 200})
+check('C15', progs=[('chk_C15', [1, 2, 3, 8])], level='exploration', extra=ENG,
+      floors={'quiescence_probes': 5000, 'progress_measurements': 500, 'events_accepted': 5000})
+check('C18', progs=[('chk_C18', [1, 2, 3])], level='exploration', extra=ENG,
+      floors={'busy_samples_inside_event_unit': 5000, 'busy_samples_with_open_unit': 20000, 'is_busy_idle_answers': 2000, 'is_hold_samples': 50000, 'holds_entered': 100})
+
+check('C20', progs=[('chk_C20', [1])], level='exploration', extra=ENG,
+      floors={'streams': 10000, 'units_style_checked': 50000, 'units_crlf': 10000})
 
 # ----------------------------------------------------------------------------- helpers
 def log(*a):
